@@ -16,11 +16,11 @@ fn scalar_kind(k: naga::ScalarKind) -> &'static str {
     }
 }
 
-fn scalar(sc: &naga::Scalar) -> String {
+pub fn scalar(sc: &naga::Scalar) -> String {
     app("mkScalar", &[scalar_kind(sc.kind).to_string(), n(sc.width)])
 }
 
-fn vsize(v: naga::VectorSize) -> String {
+pub fn vsize(v: naga::VectorSize) -> String {
     match v {
         naga::VectorSize::Bi => "Bi",
         naga::VectorSize::Tri => "Tri",
@@ -37,7 +37,7 @@ fn array_size(a: &naga::ArraySize) -> String {
     }
 }
 
-fn access(a: naga::StorageAccess) -> String {
+pub fn access(a: naga::StorageAccess) -> String {
     app(
         "mkAccess",
         &[
@@ -48,7 +48,7 @@ fn access(a: naga::StorageAccess) -> String {
     )
 }
 
-fn space(sp: &naga::AddressSpace) -> String {
+pub fn space(sp: &naga::AddressSpace) -> String {
     match sp {
         naga::AddressSpace::Function => "SpFunction".to_string(),
         naga::AddressSpace::Private => "SpPrivate".to_string(),
@@ -96,7 +96,7 @@ fn image_class(c: &naga::ImageClass) -> String {
     }
 }
 
-fn type_inner(inner: &naga::TypeInner) -> String {
+pub fn type_inner(inner: &naga::TypeInner) -> String {
     use naga::TypeInner as T;
     match inner {
         T::Scalar(sc) => app("TScalar", &[scalar(sc)]),
